@@ -45,7 +45,18 @@ RULE = ("model tie: (1) utils.copypath run on small real filesystems built in a 
         "SHORTER file of that name (or nothing) lies where the escape lands; single metafiles and metafile directories with a benign "
         "metafile; destinations 1-4 levels deep, relative or absolute; judged by C14's own rule: everything in the case directory "
         "outside the destination (search directories, metafiles) is snapshotted before and after and must be identical -- refusing "
-        "the metafile is fine.  Payloads at SCALE (end to end only; rebuild_common.scale_plan, as in C13, plus partially matching "
+        "the metafile is fine.  NAMES THAT ARE NOT THE RECORDED NAME (aimed stream `othername` and a share of the random and scale "
+        "streams): for some files the right bytes lie in the search directories ONLY under another name -- the recorded name with a "
+        "byte that is not valid UTF-8 first / last / before the extension (b'data\\xff.bin'), a truncated or over-long sequence inside, "
+        "the other Unicode normalisation (NFD for NFC, NFC for NFD, NFKC for a ligature), another letter case, white space appended -- "
+        "while the recorded name belongs to a wholly different same-size decoy, to a file of another size or to no file; a search "
+        "root may be that other-named file itself; the judge is the one above: a written file must equal a search-directory file whose "
+        "NAME IS THE RECORDED NAME (names compared exactly, as the file system returns them).  THE -m FOLDER (aimed stream `metafolder`; "
+        "mostly the command line in process): the metafile lies next to its own payload (<folder>/<name>.torrent, <folder>/<name>, the "
+        "usual `create` layout) and -m names that folder (or the metafile in it; the working directory may be that folder); for some "
+        "files the trees given with -c hold only a same-size decoy, a file of another size or nothing: every written file must be a copy "
+        "of a file under a directory GIVEN WITH -c.  A few v1 metafiles whose `pieces` string is valid UTF-8 with multi-byte "
+        "characters (see C13).  Payloads at SCALE (end to end only; rebuild_common.scale_plan, as in C13, plus partially matching "
         "decoys and aligned v1; half of them into a pre-populated destination): candidates of 1 .. 9 MiB -- exactly k MiB, k MiB +- 1, "
         "k MiB + r -- at piece lengths 256 KiB .. 16 MiB, v1 / v2 / hybrid metafiles of every creator and of the "
         "reference encoder: every file written must have the recorded length and be byte-identical to a candidate, whatever buffer the "
@@ -141,7 +152,21 @@ def run_case(case, runners):
         runners.put(r)
 
 
+class _Safe:
+    """ctx whose failures carry only text that can be written (names that are not valid UTF-8 shown with \\xNN)"""
+
+    def __init__(self, ctx):
+        self._ctx = ctx
+
+    def __getattr__(self, name):
+        return getattr(self._ctx, name)
+
+    def fail(self, kind, inp, expected, observed, **kw):
+        return self._ctx.fail(kind, rc.sanitize(inp), expected, rc.sanitize(observed), **kw)
+
+
 def evaluate(ctx, case, res):
+    ctx = _Safe(ctx)
     inp = rc.case_summary(case)
     dest = case["dest"]
     if res["reply1"].get("runner_died") or res["reply2"].get("runner_died"):
@@ -219,7 +244,7 @@ def evaluate(ctx, case, res):
     rd = os.path.realpath(dest)
     unseen = [k for k in changed if os.path.join(rd, k) not in targets]
     if unseen:
-        ctx.broken.append(f"audit hook did not report the mutation of {unseen[:3]} (case seed {case['seed']})")
+        ctx.broken.append(f"audit hook did not report the mutation of {rc.sanitize(unseen[:3])} (case seed {case['seed']})")
     cl = set(case["classes"])
     for rep in (res["reply1"],):
         if rep.get("error"):
@@ -228,7 +253,8 @@ def evaluate(ctx, case, res):
         cl.add("destination changed")
     ctx.case(key=("e2e", case["profile"], case["seed"]), classes=sorted(cl),
              nontrivial=bool(changed) or any(c.startswith("destination: ") for c in cl),
-             sample={"case": inp, "destination_before": sorted(b["dest"])[:12], "changed": changed[:12]} if case.get("index") == 2 else None)
+             sample=rc.sanitize({"case": inp, "destination_before": sorted(b["dest"])[:12], "changed": changed[:12]})
+             if case.get("index") == 2 else None)
 
 
 def make_case(seed, workdir, profile="c14"):
@@ -373,6 +399,7 @@ def run_escape(case, runners):
 
 
 def evaluate_escape(ctx, case, res):
+    ctx = _Safe(ctx)
     inp = escape_summary(case)
     rep = res["reply1"]
     if rep.get("runner_died"):
@@ -402,7 +429,8 @@ def e2e(ctx):
     quick = ctx.tier == "quick"
     plan = ["c14"] * (70 if quick else 1100) + ["boundary"] * (6 if quick else 80) + ["boundary-only"] * (6 if quick else 80) + \
         ["absent"] * (8 if quick else 100) + ["namesake"] * (10 if quick else 120) + \
-        ["escape"] * (30 if quick else 500)
+        ["escape"] * (30 if quick else 500) + ["othername"] * (8 if quick else 120) + ["metafolder"] * (8 if quick else 120) + \
+        ["utf8pieces"] * (2 if quick else 24)
     # payloads at SCALE (rebuild_common.scale_plan: candidates of 1 .. 6 MiB, piece lengths 256 KiB .. 4 MiB and more): copies larger
     # than any buffer a copy loop would use, judged by the same snapshots and the same rules
     plan += rc.scale_plan(not quick, "scale14")
@@ -577,6 +605,6 @@ def replay(ctx, data):
         print("implementation:", res["reply1"].get("impl"), "error:", res["reply1"].get("error"))
         print(json.dumps((escape_summary if esc else rc.case_summary)(case), indent=1, ensure_ascii=False)[:4000])
         for f in sub.failures:
-            print("PROBLEM", f["kind"], json.dumps(core.jsonable(f["observed"]), ensure_ascii=False)[:600])
+            print("PROBLEM", f["kind"], json.dumps(core.jsonable(rc.sanitize(f["observed"])), ensure_ascii=False)[:600])
         print("verdict:", "property violated on this input" if sub.failures else "holds on this input")
         return 1 if sub.failures else 0
